@@ -572,6 +572,40 @@ def call(eng, ctx, cp, self_ty, trait, generics, args, env):
         if m == "is_some_and":
             o = args[0]
             return eng.call_fnv(ctx, args[1], [o.fields[0]]) if o.variant == "Some" else mk_bool(False)
+        if m == "is_none_or":
+            o = args[0]
+            return eng.call_fnv(ctx, args[1], [o.fields[0]]) if o.variant == "Some" else mk_bool(True)
+        if m == "map_or":
+            o = args[0]
+            return eng.call_fnv(ctx, args[2], [o.fields[0]]) if o.variant == "Some" else args[1]
+        if m == "map_or_else":
+            o = args[0]
+            return eng.call_fnv(ctx, args[2], [o.fields[0]]) if o.variant == "Some" else eng.call_fnv(ctx, args[1], [])
+        if m == "and":
+            return args[1] if args[0].variant == "Some" else args[0]
+        if m == "xor":
+            a, b = args[0], args[1]
+            if (a.variant == "Some") != (b.variant == "Some"):
+                return a if a.variant == "Some" else b
+            return OPT_NONE()
+        if m == "zip":
+            a, b = args[0], args[1]
+            return OPT_SOME(Tup([a.fields[0], b.fields[0]])) if a.variant == "Some" and b.variant == "Some" else OPT_NONE()
+        if m == "inspect":
+            if args[0].variant == "Some":
+                eng.call_fnv(ctx, args[1], [Ref(args[0].fields, 0)])
+            return args[0]
+        if m in ("get_or_insert_with", "get_or_insert"):
+            cur = deref(args[0])
+            if cur.variant == "None":
+                newv = eng.call_fnv(ctx, args[1], []) if m == "get_or_insert_with" else args[1]
+                cur.variant, cur.fields = "Some", [newv]
+            return Ref(cur.fields, 0)
+        if m in ("insert", "replace") and isinstance(args[0], Ref):
+            cur = deref(args[0])
+            old = Adt("Option", cur.variant, list(cur.fields))
+            cur.variant, cur.fields = "Some", [args[1]]
+            return Ref(cur.fields, 0) if m == "insert" else old
     if sn == "Result":
         r = args[0]
         if m in ("unwrap", "expect"):
@@ -605,6 +639,21 @@ def call(eng, ctx, cp, self_ty, trait, generics, args, env):
         if m == "as_ref":
             rr = deref(args[0])
             return Adt("Result", rr.variant, [Ref(rr.fields, 0)])
+        if m == "map_or":
+            return eng.call_fnv(ctx, args[2], [r.fields[0]]) if r.variant == "Ok" else args[1]
+        if m == "map_or_else":
+            return eng.call_fnv(ctx, args[2 if r.variant == "Ok" else 1], [r.fields[0]])
+        if m in ("is_ok_and", "is_err_and"):
+            want = "Ok" if m == "is_ok_and" else "Err"
+            return eng.call_fnv(ctx, args[1], [r.fields[0]]) if r.variant == want else mk_bool(False)
+        if m == "and":
+            return args[1] if r.variant == "Ok" else r
+        if m == "or":
+            return r if r.variant == "Ok" else args[1]
+        if m in ("expect_err", "unwrap_err"):
+            if r.variant == "Ok":
+                _panic("unwrap", "called Result::%s on an Ok value" % m, raw)
+            return r.fields[0]
 
     # ---- str / char helpers ------------------------------------------------------------------------
     if sn in ("str", "String") and args:
@@ -1844,13 +1893,24 @@ def stub_into_writer(eng, ctx, args):
     w = deref(args[1])
     if isinstance(v, Adt) and v.ty == "Value" and ctx.side.get("label_bytes") and \
             (v.variant == "Integer" or (v.variant == "Text" and v.fields[0].elems is not None
-                                        and len(v.fields[0].elems) < 24)):
+                                        and len(v.fields[0].elems) < 0x10000)):
         # a single integer / short text (what Label::cmp_canonical serialises): the reference
         # deterministic encoding as concrete-length bytes with symbolic content
         if not isinstance(w, VecV) or w.elems:
             _unsupported("into_writer into a non-empty buffer")
         w.elems, w.opaque = leaf_encoding(ctx, v), None
         return OK(UNIT)
+    if ctx.side.get("concrete_writes") and isinstance(w, VecV) and w.elems is not None:
+        # head job: a fully concrete tree (e.g. Tag(18, Null) written to learn the tag head) is
+        # serialised to its deterministic bytes
+        import concrete
+        try:
+            data = concrete.encode(concrete.value_to_tree(None, v, {}))
+        except Exception:
+            data = None
+        if data is not None and not _has_symbols(v):
+            w.elems.extend(Sc("u8", b) for b in data)
+            return OK(UNIT)
     snap = deep_clone(v)
     out = ctx.fresh_opaque("enc", "vec", nonempty=True)
     ctx.side.setdefault("written", {})[out.opaque.ident] = snap
@@ -1867,11 +1927,38 @@ def stub_into_writer(eng, ctx, args):
     return OK(UNIT)
 
 
+def _has_symbols(v):
+    """does an interpreter value contain symbolic scalars, opaque strings or lazy parts?"""
+    v = deref(v)
+    if isinstance(v, Sc):
+        return is_sym(v.v)
+    if isinstance(v, (Lazy, Opaque)):
+        return True
+    if isinstance(v, VecV):
+        return v.elems is None or any(_has_symbols(e) for e in v.elems)
+    if isinstance(v, (Adt, Tup, Arr)):
+        return any(_has_symbols(x) for x in v.fields)
+    if isinstance(v, BoxV):
+        return _has_symbols(v.cell.v)
+    if isinstance(v, SetV):
+        return any(_has_symbols(e) for e in v.elems)
+    return False
+
+
 def leaf_encoding(ctx, v):
     """RFC 8949 shortest-form encoding of an integer / short text Value as a list of byte scalars."""
     if v.variant == "Text":
         el = v.fields[0].elems
-        return [Sc("u8", 0x60 + len(el))] + list(el)
+        n = len(el)
+        if n < 24:
+            head = [0x60 + n]
+        elif n < 0x100:
+            head = [0x78, n]
+        elif n < 0x10000:
+            head = [0x79, n >> 8, n & 0xff]
+        else:
+            _unsupported("leaf encoding of a text longer than 65535 bytes")
+        return [Sc("u8", b) for b in head] + list(el)
     x = v.fields[0].fields[0]           # i128
     if not is_sym(x.v):
         import concrete
